@@ -149,6 +149,9 @@ package shellfuncsfile
 //@   ghost nSort int = 0
 //@   ghost nCompact int = 0
 //@   ghost nExec int = 0
+//@   ghost pieces []string = nil
+//@   ghost nSplit int = 0
+//@   on call strings.Split(x, sep) (r): if nSplit == 0 { assert(x == s && sep == "\n", "the_payload_is_cut_at_every_newline"); pieces = r }; nSplit++
 //@   on call strings.HasPrefix(a, b) (r): assert(b == DocPrefix && a == line && !flushed, "only_tagged_lines"); orig = a; tagged = r; haveCut = false
 //@   on call strings.Cut(x, sep) (n, d, ok): assert(tagged && sep == " " && x != "" && x == strings.TrimSpace(strings.TrimPrefix(orig, DocPrefix)), "first_word_and_rest_of_the_text_after_the_tag"); cutN = n; cutD = d; haveCut = true
 //@   on enter fmt.Fprintf(w, f, v): assert(w == tw && !flushed && f == "%s\t- %s\n", "one_row_per_line_through_the_table_writer"); if nOwn == 0 { assert(boxes(v[0], ListFuncName) && boxes(v[1], ListFuncDesc), "own_row"); nOwn++ } else { assert(haveCut && boxes(v[0], strings.TrimSpace(cutN)) && boxes(v[1], strings.TrimSpace(cutD)), "row_is_name_and_description"); haveCut = false }
@@ -158,6 +161,7 @@ package shellfuncsfile
 //@   on enter slices.Compact(x): assert(x == lines && nSort == 1 && nCompact == 0, "duplicate_rows_removed"); nCompact++
 //@   on enter template.Template.Execute(t, w, data): assert(t == funcListTemplate && nDel == 1 && nSort == 1 && nCompact == 1 && boxes(data, lines) && forall(j, 0 <= j && j < len(lines), lines[j] == strings.ReplaceAll(pre("2", lines[j]), "'", "'\\''")), "every_row_is_escaped_after_sorting_and_deduplication"); nExec++
 //@   loop 1
+//@     invariant every_line_of_the_payload_is_examined: nSplit == 1 && ranged("1") == pieces
 //@     invariant rows: nOwn == 1 && !flushed && nDel == 0 && nSort == 0 && nCompact == 0 && nExec == 0
 //@   loop 2 counter i
 //@     invariant escaped_so_far: forall(j, 0 <= j && j < i, lines[j] == strings.ReplaceAll(pre("2", lines[j]), "'", "'\\''"))
